@@ -467,7 +467,27 @@ fn world(rng: &mut Rng, cfg: &Cfg, force_files: Option<usize>, identity: bool) -
             } else {
                 (1, *rng.pick(&[up(0.01f32), 0.05, 1.0]))
             };
+            let file = rng.below(n_files);
             let rt = if rng.chance(1, 12) { 0.012 * rng.unit() as f32 } else { 0.02 + 0.96 * rng.unit() as f32 };
+            // aligned retention times are the output of a per-file linear fit, so they do leave [0, 1]:
+            // an identification at the very start (end) of a run whose alignment has a negative intercept
+            // (slope + intercept > 1) -- the window must stay centred on the aligned time (seeded C19-E)
+            let a = aligns[file];
+            let rt = if rng.chance(1, 6) {
+                let hi = a.1 + a.2;
+                if a == (1.0, 1.0, 0.0) {
+                    // the aligned time is an input of its own: just outside [0, 1] under the identity alignment too
+                    if rng.chance(1, 2) { -0.004 * rng.unit() as f32 } else { 1.0 + 0.004 * rng.unit() as f32 }
+                } else if a.2 < 0.0 && rng.chance(1, 2) {
+                    a.2 * rng.unit() as f32
+                } else if hi > 1.0 {
+                    1.0 + (hi - 1.0) * rng.unit() as f32
+                } else {
+                    rt
+                }
+            } else {
+                rt
+            };
             psms.push(Ft {
                 pep: p as u32,
                 label,
@@ -475,7 +495,7 @@ fn world(rng: &mut Rng, cfg: &Cfg, force_files: Option<usize>, identity: bool) -
                 rt,
                 calcmass: if rng.chance(1, 8) { calcmass + 0.5 } else { calcmass },
                 charge: 2 + rng.below(2) as u8,
-                file: rng.below(n_files),
+                file,
                 ims: 0.6 + 0.8 * rng.unit() as f32,
             });
         }
@@ -494,6 +514,9 @@ fn world(rng: &mut Rng, cfg: &Cfg, force_files: Option<usize>, identity: bool) -
                     let centre = if decoy_win { (f.rt - 2.0 * RT_TOL).max(0.0) } else { f.rt };
                     let rt = centre + 0.014 * (rng.unit() as f32 - 0.5);
                     let t = ((rt - a.2) / a.1) * a.0;
+                    if t < 0.0 {
+                        continue;
+                    }
                     let profile = (-0.5 * ((rt - apex) / 0.0012).powi(2)).exp();
                     let mut peaks = Vec::new();
                     for z in z_lo..=z_hi.saturating_add(1) {
